@@ -75,10 +75,10 @@ def heapExtractMin (h : Heap) : Part × Heap :=
   let h2 := heapSiftOutward h1 (n - 1) 0
   (h2.getD (n - 1) (0, 0), h2.pop)
 
-/-- `heapCheck`: `bug("Heap out of order.")` as soon as `h[parent].key >= h[i].key`
-    (so also for equal keys); `false` stands for the call of `bug`. -/
+/-- `heapCheck`: `bug("Heap out of order.")` as soon as `h[parent].key > h[i].key`;
+    `false` stands for the call of `bug`. -/
 def heapCheck (h : Heap) : Bool :=
-  (List.range (h.size - 1)).all (fun j => !(key h (heapParent (j + 1)) ≥ key h (j + 1)))
+  (List.range (h.size - 1)).all (fun j => !(key h (heapParent (j + 1)) > key h (j + 1)))
 
 /-- `heapMap0`: pre-order walk -/
 def heapMap0 (h : Heap) (n ix : Nat) : List Part :=
@@ -107,13 +107,11 @@ def priqInsert (pq : PriQ) (k : Int) (e : Nat) : PriQ :=
     let size := if size = argv.size then 2 * size else size
     { size := size, argv := heapInsert argv k e }
 
-/-- `priqPeekMin`; `none` for the empty queue (C tests `size == 0`, which never holds, and reads
-    the stale slot 0) -/
+/-- `priqPeekMin`; `none` for the empty queue (C: `bug("Cannot take min of empty priority queue.")`) -/
 def priqPeekMin (pq : PriQ) : Option Part :=
   if pq.argc = 0 then none else some (pq.argv.getD 0 (0, 0))
 
-/-- `priqExtractMin`; `none` for the empty queue (C: `argc--` wraps and `argv[-1]` is read and
-    written — undefined; the guard `size == 0` never holds) -/
+/-- `priqExtractMin`; `none` for the empty queue (C: `bug("Cannot take min of empty priority queue.")`) -/
 def priqExtractMin (pq : PriQ) : Option (Part × PriQ) :=
   match pq with
   | { size := size, argv := argv } =>
